@@ -124,6 +124,12 @@ def oracle(ctx, r, const, stats):
     if kind in (1, 2, 3) and r["op"] in SINGLE and r["dpeak_kib"] > 512:
         ctx.violation(f"host-alloc-before-check:{fam}", f"refused ({KIND[kind]}) after the address space had grown by {r['dpeak_kib']} KiB: "
                       f"the host allocated before the limit check (request of {req} bytes, limit {r['limit']})", rep)
+    # alloc / free / alloc / alloc: both live buffers are charged although the first of them sits in a recycled slot
+    if r["op"] == "manual_reuse" and kind == 0 and c is not None and r["delta"] - c != 16 * r["size"]:
+        ctx.violation("charge-mismatch:manual_alloc:slot-reuse", f"two live buffers of {r['size']} values are charged {r['delta'] - c} bytes instead of {16 * r['size']} "
+                      "(a = alloc(n); free(a); b = alloc(n); c = alloc(n))", rep)
+    if r["op"] == "manual_reuse" and kind == 0 and c is not None and r["a0"] + c + 16 * r["size"] > r["limit"]:
+        ctx.violation("granted-over-limit:manual_alloc:slot-reuse", f"two live buffers of {8 * r['size']} bytes each granted with {r['a0'] + c} in use, limit {r['limit']}", rep)
     # the storage of a vec is accounted as it grows: what is held has been charged
     if kind == 0 and fam in ("vec_push", "vec_reserve") and r["size"] > 0 and c is not None and r["delta"] - c < UNIT[r["op"]] * r["size"]:
         ctx.violation(f"held-unaccounted:{fam}", f"a vec of {r['size']} more elements ({UNIT[r['op']] * r['size']} bytes) is held but only {r['delta'] - c} bytes were charged (limit {r['limit']})", rep)
